@@ -3,6 +3,7 @@ import AslProofs.IniNames
 import AslProofs.CsvQ
 import AslProofs.CsvTable
 import AslProofs.CsvTyped
+import AslProofs.CsvTableSep
 import AslProps.C18Spec
 /-!
 # C18 — IniFile and TabularDataFile persist exactly what was set or written: property theorems
@@ -363,6 +364,60 @@ example : AslProofs.Csv.FitsAll 44 [.str, .num, .skip] [.str [48, 48, 55], .num 
   intro x hx
   simp only [List.mem_cons, List.not_mem_nil, or_false] at hx
   rcases hx with e | e | e <;> subst e <;> simp [Csv.localize, CellOK]
+
+/-- **csv_header_sniff.**  `readHeader` recognises the separator of every header the writer produces with `,`, `;` or
+    tab from identifier column names — two columns at least unless the separator is the default — whatever follows
+    the header line: separator as written, decimal symbol `,` for `;` files and `.` otherwise, names as written,
+    file positioned after the header line. -/
+theorem csv_header_sniff (sep : UInt8) (hs : AslProofs.Csv.SniffSep sep) (cols : List Bytes) (hne : cols ≠ [])
+    (h : ∀ n ∈ cols, ColOK n) (h2 : sep = 44 ∨ 2 ≤ cols.length) (rest : Bytes) (lf : Bool) :
+    Csv.readHeader (Csv.joinSep sep cols ++ (if lf then 10 :: rest else [])) =
+      { sep := sep, dec := AslProofs.Csv.sniffDec sep, columns := cols,
+        file := { rest := if lf then rest else [], eof := !lf } } :=
+  AslProofs.Csv.readHeader_sep sep hs cols hne h h2 rest lf
+
+/-- a tab-separated header of two columns -/
+example : AslProofs.Csv.SniffSep 9 ∧ ColOK [120] ∧ ColOK [121] := by
+  refine ⟨Or.inr (Or.inr rfl), ⟨?_, 120, [], rfl, by decide⟩, ⟨?_, 121, [], rfl, by decide⟩⟩ <;>
+    (intro c hc; simp at hc; subst hc; decide)
+
+/-- **csv_one_column_needs_default_separator.**  The condition "two columns at least" of `csv_header_sniff` is needed:
+    the one-column table `a` / `p,q` written after `setSeparator(';')` has no `;` anywhere, the reader falls back to `,`
+    and returns two cells (recorded in `outside_findings.txt`; the generator keeps one-column tables to the default
+    separator). -/
+theorem csv_one_column_needs_default_separator :
+    (Csv.readTable (Csv.writeItemsG 59 46 [[97]] [.cell (.str [112, 44, 113])])).rows = [[.str [112], .str [113]]] := by
+  decide
+
+/-- **csv_table_roundtrip_typed.**  Whole tables, every separator the reader can recognise (`,` `;` tab), the writer's
+    decimal symbol `.` or the one the reader assumes for that separator (`setDecimal(',')` with `;`), read with
+    `readAs(types)`: for identifier column names (two at least unless the separator is `,`) and every table whose
+    rows have one cell per column, each cell suiting its column as in `csv_typed_row` (`s`: any string without NUL /
+    line break, `n`: number text, `i`: integer text, other characters: dropped) and no row starting with the first
+    byte of a byte-order mark (the reader eats a BOM at the start of the first data line), the file written by
+    `setSeparator`, `setDecimal`, `columns`, `<<` of every cell and read by a fresh `TabularDataFile` after `readAs`
+    gives back the column names and the rows cell for cell. -/
+theorem csv_table_roundtrip_typed (sep : UInt8) (hs : AslProofs.Csv.SniffSep sep) (wdec : UInt8)
+    (hd : wdec = 46 ∨ wdec = AslProofs.Csv.sniffDec sep) (types : List Csv.ColType)
+    (cols : List Bytes) (hne : cols ≠ []) (hcols : ∀ n ∈ cols, ColOK n) (h2 : sep = 44 ∨ 2 ≤ cols.length)
+    (rows : List (List Cell))
+    (hrows : ∀ r ∈ rows, r.length = cols.length ∧ (∀ x ∈ r, CellOK sep (Csv.localize wdec x)) ∧
+      AslProofs.Csv.FitsAll (AslProofs.Csv.sniffDec sep) types r ∧
+      (∀ c, r.head? = some c → (cellText (Csv.localize wdec c)).head? ≠ some 0xEF)) :
+    Csv.readTableT types (Csv.writeItemsG sep wdec cols (rows.flatten.map .cell)) =
+      { columns := cols, rows := rows.map fun r => (types.zip r).filterMap fun p => AslProofs.Csv.typedSpec p.1 p.2 } :=
+  AslProofs.Csv.table_roundtrip_typed sep hs wdec hd types cols hne hcols h2 rows hrows
+
+/-- **csv_table_roundtrip_semicolon.**  Whole tables written after `setSeparator(';')` (decimal point kept) and read
+    without `readAs`: for two or more identifier column names and every table of cells as in `csv_semicolon_row`, a
+    fresh `TabularDataFile` recognises `;`, assumes the decimal comma, and still returns the columns and the rows cell
+    for cell, numbers as `myatof` of the text written. -/
+theorem csv_table_roundtrip_semicolon (cols : List Bytes) (hcols : ∀ n ∈ cols, ColOK n) (h2 : 2 ≤ cols.length)
+    (rows : List (List Cell)) (hrows : ∀ r ∈ rows, r.length = cols.length ∧ ∀ c ∈ r, CellWFsemi c) :
+    Csv.readTable (Csv.writeItemsG 59 46 cols (rows.flatten.map .cell)) =
+      { columns := cols, rows := rows.map (·.map expected) } := by
+  rw [← AslProofs.Csv.readTableT_nil]
+  exact AslProofs.Csv.table_roundtrip_semi cols hcols h2 rows hrows
 
 /-- **csv_number_exact_Q.**  Every number text `[-]digits[.digits][(e|E)[+|-]digits]` with at most 18 mantissa digits
     and at most 9 exponent digits (in particular every `%.15g` output) is recognised as a number by `myisnumber`;
